@@ -7,11 +7,27 @@ use serde_json::{json, Value};
 
 fn hexs(b: &[u8]) -> String { b.iter().map(|x| format!("{x:02x}")).collect() }
 
+/// Readers that did not return within the budget so far (each leaves a spinning thread behind).
+static HANGS: std::sync::atomic::AtomicUsize = std::sync::atomic::AtomicUsize::new(0);
+const MAX_HANGS: usize = 3;
+pub fn too_many_hangs() -> bool { HANGS.load(std::sync::atomic::Ordering::SeqCst) >= MAX_HANGS }
+
+/// Run `f` on its own thread; None when it has not returned after 3 s (normal: microseconds).
+fn with_deadline<T: Send + 'static>(f: impl FnOnce() -> T + Send + 'static) -> Option<T> {
+    let (tx, rx) = std::sync::mpsc::channel();
+    std::thread::spawn(move || { let _ = tx.send(f()); });
+    match rx.recv_timeout(std::time::Duration::from_secs(3)) {
+        Ok(v) => Some(v),
+        Err(_) => { HANGS.fetch_add(1, std::sync::atomic::Ordering::SeqCst); None }
+    }
+}
+
 fn run_readers(bytes: &[u8]) -> (Value, Value) {
-    let bid = std::panic::catch_unwind(|| BuildId::read_from_module(bytes.into()));
-    let so = std::panic::catch_unwind(|| SoName::read_from_module(bytes.into()));
-    let b = match bid { Err(_) => json!({"res":"panic"}), Ok(Err(_)) => json!({"res":"err"}), Ok(Ok(BuildId(v))) => json!({"res":"ok","hex":hexs(&v)}) };
-    let s = match so { Err(_) => json!({"res":"panic"}), Ok(Err(_)) => json!({"res":"err"}), Ok(Ok(SoName(v))) => json!({"res":"ok","hex":hexs(v.as_bytes())}) };
+    let (b1, b2) = (bytes.to_vec(), bytes.to_vec());
+    let bid = with_deadline(move || std::panic::catch_unwind(|| BuildId::read_from_module(b1.as_slice().into())));
+    let so = with_deadline(move || std::panic::catch_unwind(|| SoName::read_from_module(b2.as_slice().into())));
+    let b = match bid { None => json!({"res":"hang"}), Some(Err(_)) => json!({"res":"panic"}), Some(Ok(Err(_))) => json!({"res":"err"}), Some(Ok(Ok(BuildId(v)))) => json!({"res":"ok","hex":hexs(&v)}) };
+    let s = match so { None => json!({"res":"hang"}), Some(Err(_)) => json!({"res":"panic"}), Some(Ok(Err(_))) => json!({"res":"err"}), Some(Ok(Ok(SoName(v)))) => json!({"res":"ok","hex":hexs(v.as_bytes())}) };
     (b, s)
 }
 
@@ -29,6 +45,7 @@ fn classify(b: &Value, spec: &Spec, bytes: &[u8]) -> String {
 
 /// Concretise an abstract ELF (flags of the ElfReader model) and run the readers on it.
 pub fn model_case(c: &Value, tr: &mut Trace, tmpdir: &str) {
+    if too_many_hangs() { return; }
     let g = |k: &str| c[k].as_str().unwrap_or("ok").to_string();
     let mut spec = Spec { bits64: c["bits64"].as_bool().unwrap_or(true), ..Default::default() };
     spec.phdrs = g("phdrs") != "absent";
@@ -48,15 +65,20 @@ pub fn model_case(c: &Value, tr: &mut Trace, tmpdir: &str) {
     if g("strtab") == "bad_index" { elfgen::set_field(&mut b, "e_shstrndx", 77); }
     if g("strtab") == "wrong_type" { elfgen::set_field(&mut b, "sh3.sh_type", 1); }
     if g("text") == "range_bad" { elfgen::set_field(&mut b, "sh1.sh_offset", len - 16); }
+    if g("dyn") == "unterminated" {
+        let dynent = if spec.bits64 { 16 } else { 8 };
+        for f in ["ph2.p_filesz", "ph2.p_memsz", "sh4.sh_size"] { elfgen::set_field(&mut b, f, 3 * dynent); }
+    }
     if g("soname") == "offset_bad" { elfgen::set_field(&mut b, "dyn0.d_val", 5000); }
     let (bid, so) = run_readers(&b.bytes);
     // the same image through read_from_file
     let path = format!("{tmpdir}/case_{}.elf", std::process::id());
     let _ = std::fs::write(&path, &b.bytes);
-    let fb = std::panic::catch_unwind(|| BuildId::read_from_file(std::path::Path::new(&path)));
+    let p2 = path.clone();
+    let fb = with_deadline(move || std::panic::catch_unwind(|| BuildId::read_from_file(std::path::Path::new(&p2))));
     let file_same = match (&fb, bid["res"].as_str()) {
-        (Ok(Ok(BuildId(v))), Some("ok")) => hexs(v) == bid["hex"].as_str().unwrap_or(""),
-        (Ok(Err(_)), Some("err")) => true,
+        (Some(Ok(Ok(BuildId(v)))), Some("ok")) => hexs(v) == bid["hex"].as_str().unwrap_or(""),
+        (Some(Ok(Err(_))), Some("err")) => true,
         _ => false,
     };
     let _ = std::fs::remove_file(&path);
@@ -74,6 +96,7 @@ pub fn fuzz_cases(random: usize, seed: u64, tr: &mut Trace) {
     let mut r = Rng::new(seed);
     let vals = |size: u64| vec![0u64, 1, size.saturating_sub(1), size, size + 1, 0xffff_ffff, 1 << 63, u64::MAX, u64::MAX - 7, 0x7fff_ffff_ffff_ffff];
     let emit = |kind: &str, what: String, bytes: &[u8], tr: &mut Trace| {
+        if too_many_hangs() { return; }      // every further case would cost the full budget; what was seen is reported
         let (bid, so) = run_readers(bytes);
         tr.emit(json!({"ev":"fuzz","kind":kind,"what":what,"bid":bid["res"],"so":so["res"]}));
     };
@@ -140,7 +163,7 @@ pub fn system_files(limit: usize, tr: &mut Trace) {
         let mut ents: Vec<_> = rd.flatten().collect();
         ents.sort_by_key(|e| e.file_name());
         for e in ents {
-            if n >= limit { return; }
+            if n >= limit || too_many_hangs() { return; }
             let p = e.path();
             let Ok(md) = std::fs::symlink_metadata(&p) else { continue };
             if md.is_dir() { if stack.len() < 200 { stack.push(p); } continue; }
@@ -174,6 +197,7 @@ pub fn live_mappings(workdir: &str, tr: &mut Trace) {
     let Ok(mut d) = PtraceDumper::new_report_soft_errors(t.pid, std::time::Duration::from_secs(2), Default::default(), error_graph::strategy::DontCare) else { return };
     d.suspend_threads(error_graph::strategy::DontCare);
     for m in d.mappings.clone() {
+        if too_many_hangs() { break; }
         let Some(name) = m.name.as_ref().map(|n| n.to_string_lossy().into_owned()) else { continue };
         if !name.starts_with('/') || m.offset != 0 || !std::path::Path::new(&name).exists() { continue; }
         let mem = std::panic::catch_unwind(|| PtraceDumper::from_process_memory_for_mapping::<BuildId>(&m, t.pid));
